@@ -24,7 +24,7 @@ theorem unMoves_sound (all : Bool) (Q : Pos) (x : UnMv) (h : x ∈ unMoves all Q
   have h2 := h.2
   unfold predB at h2
   simp only [Bool.and_eq_true, beq_iff_eq] at h2
-  exact ⟨unmake Q x.m x.ui, h2.1.1.1.2, h2.1.1.2, h2.1.2, h2.2.symm⟩
+  exact ⟨unmake Q x.m x.ui, (wfFast_eq _).symm.trans h2.1.1.1.2, h2.1.1.2, h2.1.2, h2.2.symm⟩
 
 /-- in mode `includeAllEpSquares = false` an e.p. square is reported only for the e.p. capture itself -/
 theorem unMoves_false_ep (Q : Pos) (x : UnMv) (h : x ∈ unMoves false Q) : x.ui.ep = none ∨ isEpUn Q x = true := by
@@ -100,7 +100,7 @@ theorem consistent (all : Bool) (Q : Pos) (x : UnMv) (h : x ∈ unMoves all Q) :
   have h2 := h.2
   unfold predB at h2
   simp only [Bool.and_eq_true, beq_iff_eq] at h2
-  exact ⟨h2.1.1.1.2, h2.1.1.2, h2.1.2, h2.2⟩
+  exact ⟨(wfFast_eq _).symm.trans h2.1.1.1.2, h2.1.1.2, h2.1.2, h2.2⟩
 
 /-- **no legal predecessor is ever missing**: if the list for `Q` is empty — even in the mode without unused e.p.
     squares, which is the one the "no possible last move" test uses — then no position that counts has a legal move
